@@ -11,10 +11,12 @@ ASSUMPTIONS = [
     "C02 model: Exec/Spec.v `execute` is a hand-written reading of spec section 6 (CollectFields, "
     "ExecuteSelectionSet, ExecuteField, CoerceArgumentValues, CompleteValue, error propagation); choices the "
     "spec leaves open follow /repo: siblings after a propagated error are not executed, error path = raise point",
-    "fragment: objects/interfaces/unions/enums/specified scalars, list/non-null, leaf-typed arguments and "
-    "variables with defaults (no input objects), @skip/@include, fragments, aliases, __typename, query and "
-    "mutation roots, synchronous default-like resolvers over dict/list data; leaves are well-typed for their "
-    "position or a value no leaf type accepts (lenient scalar serialisation is C16's subject)",
+    "fragment: objects/interfaces/unions/enums/specified scalars, list/non-null, arguments and variables of "
+    "leaf/list/input-object (incl. OneOf) types with defaults at every level, @skip/@include, custom directives "
+    "(ignored), fragments, aliases, __typename, query and mutation roots, operation selection by name, synchronous "
+    "default-like resolvers over dict/list data; leaves are well-typed for their position or a value no leaf type "
+    "accepts (lenient scalar serialisation is C16's subject); outside: custom scalars, middleware, fragment "
+    "arguments, out_name/out_type, is_type_of/resolve_type, @defer/@stream, subscriptions, async",
     "a null/absent variable reaching the `if` of @skip/@include (allowed by a default) is skipped and counted: "
     "the spec text and /repo (error) differ there and the property does not fix it",
     "error list compared as a multiset of paths; messages, locations and order are not compared",
@@ -70,6 +72,9 @@ def build_case(ck, rng, gs, schema, wschema, max_depth, p_bad, all_nonnull=False
     except G.OutOfFragment as e:
         ck.count("skipped_out_of_fragment")
         ck.count("skipped:" + str(e))
+        return None
+    if len(wire) > 150000:
+        ck.count("skipped_too_large_for_the_wire")
         return None
     return {"text": text, "doc": doc, "variables": variables, "data": data, "wire": wire,
             "operation_name": dg.operation_name,
@@ -148,6 +153,12 @@ def run_schema(ck, m, rng, n_docs, max_depth, p_bad):
         except Exception as e:  # noqa: BLE001
             later.append({"kind": "raised", "messages": [repr(e)]})
     outs = m.run_batch([c["wire"] for c in cases])
+    # wire echo: the model's decoder/encoder reproduce the request tree
+    for c, echo in zip(cases[:5], m.run_batch([[0] + c["wire"][1:] for c in cases[:5]])):
+        ck.count("wire_echo_checked")
+        if echo != c["wire"][1:]:
+            ck.violation("wire-echo", "wire codec does not round-trip a request (harness/model defect)",
+                         {"relation": "dec_tree/enc_tree echo", "document": c["text"]})
     for c, r1, r2, r3, o in zip(cases, first, again, later, outs):
         model = G.dec_response(o)
         key_src = (sdl, c["text"], json.dumps(c["variables"], sort_keys=True, default=repr),
@@ -193,7 +204,7 @@ def run(tier):
         return ck.finish()
     m = Model("exec")
     t0 = time.time()
-    n_schemas, n_docs = (30, 70) if tier == "quick" else (400, 250)
+    n_schemas, n_docs = (45, 70) if tier == "quick" else (400, 250)
     budget = 75 if tier == "quick" else 900
     for c in common.load_corpus("C02"):
         run_corpus_case(ck, m, c)
@@ -204,7 +215,8 @@ def run(tier):
         run_schema(ck, m, ck.rng, n_docs, max_depth=ck.rng.choice([2, 3, 3, 4]),
                    p_bad=ck.rng.choice([0.0, 0.03, 0.05, 0.08]))
     ck.rule = ("type-directed generation: per schema (objects, interfaces incl. interface hierarchies, unions, enums, "
-               "list/non-null nesting up to 2 lists, arguments with defaults) a batch of operations (aliases that "
+               "list/non-null nesting up to 2 lists, input objects incl. OneOf and nested defaults, arguments with defaults) "
+               "a batch of operations (object literals with variables inside, aliases that "
                "collide on the same field, fields repeated 3+ times across selections/inline fragments/named "
                "fragments, type conditions on objects/interfaces/unions, @skip/@include on literals and variables, "
                "variables with defaults, variables inside list literals) x variable values x data graphs with "
